@@ -31,7 +31,8 @@ func (f *fakeIPInfo) GetIPInfo(ip net.IP) (ipinfo.IPInfo, error) {
 	}
 	if idOfIP(ip)%7 == 3 {
 		// a database error for some clients: they are located "XD" and their tunnel time counts all the same
-		return ipinfo.IPInfo{}, errors.New("lookup failed")
+		// (with a partially filled answer, as when only the ASN database fails)
+		return ipinfo.IPInfo{CountryCode: ipinfo.CountryCode(fmt.Sprintf("L%d", idOfIP(ip)%f.nlocs))}, errors.New("lookup failed")
 	}
 	return ipinfo.IPInfo{CountryCode: ipinfo.CountryCode(fmt.Sprintf("L%d", idOfIP(ip)%f.nlocs))}, nil
 }
